@@ -198,7 +198,9 @@ fn _convolve_modn<const N: usize>(
         res.fill(MInt::default());
         for i in 0..vpq.len() {
             for j in 0..((2 << logpack) - 1) {
-                let idx = (i << logpack) + j;
+                // The product is cyclic (modulo X^size - 1): the top digits of the last
+                // FFT word are coefficients of X^size.. and wrap around to X^0..
+                let idx = ((i << logpack) + j) % size;
                 let idx = if offset <= idx && idx < offset + res.len() {
                     idx - offset
                 } else {
